@@ -40,6 +40,7 @@ type Reporter struct {
 	notes       []string
 	assume      []string
 	extra       map[string]any
+	extraConst  map[string]any
 	rule        string
 	exhaustive  bool
 	nviol       int
@@ -58,7 +59,7 @@ func TestMain(m *testing.M) {
 
 func NewReporter(t *testing.T) *Reporter {
 	r := &Reporter{Tier: os.Getenv("VERIF_TIER"), NShards: 1, start: time.Now(), exhaustive: true,
-		states: map[uint64]struct{}{}, nontrivial: map[uint64]struct{}{}, outcomes: map[string]int64{}, extra: map[string]any{}}
+		states: map[uint64]struct{}{}, nontrivial: map[uint64]struct{}{}, outcomes: map[string]int64{}, extra: map[string]any{}, extraConst: map[string]any{}}
 	if r.Tier == "" {
 		r.Tier = "quick"
 	}
@@ -220,10 +221,12 @@ func (r *Reporter) Sample(v any) {
 	}
 	r.mu.Unlock()
 }
-func (r *Reporter) Note(s string)         { r.mu.Lock(); r.notes = append(r.notes, s); r.mu.Unlock() }
-func (r *Reporter) Assume(s string)       { r.mu.Lock(); r.assume = append(r.assume, s); r.mu.Unlock() }
-func (r *Reporter) Rule(s string)         { r.mu.Lock(); r.rule = s; r.mu.Unlock() }
-func (r *Reporter) Extra(k string, v any) { r.mu.Lock(); r.extra[k] = v; r.mu.Unlock() }
+func (r *Reporter) Note(s string)   { r.mu.Lock(); r.notes = append(r.notes, s); r.mu.Unlock() }
+func (r *Reporter) Assume(s string) { r.mu.Lock(); r.assume = append(r.assume, s); r.mu.Unlock() }
+func (r *Reporter) Rule(s string)   { r.mu.Lock(); r.rule = s; r.mu.Unlock() }
+
+// Extra records a constant of the run (same in every shard); ExtraAdd a counter that is summed over the shards.
+func (r *Reporter) Extra(k string, v any) { r.mu.Lock(); r.extraConst[k] = v; r.mu.Unlock() }
 func (r *Reporter) ExtraAdd(k string, n int64) {
 	r.mu.Lock()
 	if v, ok := r.extra[k].(int64); ok {
@@ -250,7 +253,7 @@ func (r *Reporter) Done() {
 	r.emit(map[string]any{"t": "stat", "states": len(r.states), "transitions": r.transitions, "evaluations": r.evals,
 		"distinct_nontrivial": len(r.nontrivial), "traces_validated_against_impl": r.traces,
 		"outcomes": r.outcomes, "samples": r.samples, "notes": r.notes, "assumptions": r.assume,
-		"rule": r.rule, "exhaustive": r.exhaustive, "extra": r.extra})
+		"rule": r.rule, "exhaustive": r.exhaustive, "extra": r.extra, "extra_const": r.extraConst})
 	r.emit(map[string]any{"t": "done", "wall": time.Since(r.start).Seconds()})
 	r.w.Flush()
 	if r.f != os.Stdout {
